@@ -64,12 +64,14 @@ struct Model {
     std::vector<int> regs;      // per kind: process-wide registrations so far
     std::vector<std::array<int, 2>> tregs;
     bool tier2 = false;
+    int reg_owner[2] = {-1, -1}; // task inside a process-wide registration call of that kind (tier 2: such calls are preemptible)
+    VSet reg_pending[2] = {0, 0}; // the value that call is installing
     // first violation of the run
     bool bad = false;
     std::string cls, detail;
     int bad_task = -1, bad_op = -1;
     // measures
-    uint64_t api_dispatches = 0;
+    uint64_t api_dispatches = 0, preemptible_regs = 0;
     uint64_t dispatches = 0, midcall_regs = 0, nontrivial_dispatch = 0, inherited_open = 0, collapsed_to_inherit = 0, collapsed_to_none = 0;
     uint64_t tls_reuse = 0, children_of_registered = 0, first_prev_null = 0, first_prev_default = 0;
     std::set<uint64_t> states;
@@ -214,8 +216,24 @@ static void c13_exec(Task &t, const Op &op, OpResult &r) {
         bool thr = op.fn == OP_THRD_SET_STR || op.fn == OP_THRD_SET_MEM;
         constraint_handler_t h = handler_ptr((int)op.a[0]);
         constraint_handler_t prev;
+        int nv0 = value_of_arg((int)op.a[0]);
+        if (!thr && M.tier2) {
+            // Tier 2: the registration call itself can be preempted, so that violations on other threads are dispatched
+            // while it is half done; they may see the old or the new handler, nothing else. Two process-wide
+            // registrations of one kind never overlap (racing registrations are a caller-side race the property does
+            // not speak about): a second one waits for the first.
+            while (M.reg_owner[k] >= 0 && M.reg_owner[k] != me) sim_switch_to(t, M.reg_owner[k]);
+            M.reg_owner[k] = me;
+            M.reg_pending[k] = bit(nv0);
+            for (auto &f : M.fl)
+                if (f.active && f.kind == k) { f.gadm |= bit(nv0); M.midcall_regs++; }
+            M.preemptible_regs++;
+        }
+        if (M.tier2) t.in_op = true;
         if (!thr) prev = k ? set_mem_constraint_handler_s(h) : set_str_constraint_handler_s(h);
         else prev = k ? thrd_set_mem_constraint_handler_s(h) : thrd_set_str_constraint_handler_s(h);
+        t.in_op = false;
+        if (!thr && M.tier2) { M.reg_owner[k] = -1; M.reg_pending[k] = 0; }
         int pv = value_of_ptr(prev);
         r.ret = pv;
         VSet &cur = thr ? M.T[me][k] : M.G[k];
@@ -244,7 +262,7 @@ static void c13_exec(Task &t, const Op &op, OpResult &r) {
         InFlight &f = M.fl[me];
         f.active = true;
         f.kind = k;
-        f.gadm = M.G[k];
+        f.gadm = M.G[k] | M.reg_pending[k];
         f.invocations = 0;
         f.regs_before = M.regs[k] + M.tregs[me][k];
         do_violation(t, k, (int)op.a[0], M.tier2);
@@ -300,7 +318,7 @@ static void c13_exec(Task &t, const Op &op, OpResult &r) {
             InFlight &f = M.fl[me];
             f.active = k >= 0;
             f.kind = k < 0 ? 0 : k;
-            f.gadm = M.G[f.kind];
+            f.gadm = M.G[f.kind] | M.reg_pending[f.kind];
             f.invocations = 0;
             f.regs_before = M.regs[f.kind] + M.tregs[me][f.kind];
             exec_api_op(t, op, r);
